@@ -68,6 +68,10 @@ var c17Ports = []string{"", "", "", ":80", ":8080", ":443", ":", ":0", ":65535"}
 func c17URL(c *core.Ctx, host string) string {
 	var sb strings.Builder
 	scheme := gen.Schemes[c.Rng.Intn(len(gen.Schemes))]
+	if c.Rng.Intn(8) == 0 {
+		// Every scheme of RFC 3986: letters, digits, '+', '-', '.'.
+		scheme = []string{"s3", "h2", "ed2k", "web3", "z39.50s", "coap+tcp", "svn+ssh", "a", "x-y.z", "chrome-extension"}[c.Rng.Intn(10)]
+	}
 	if c.Rng.Intn(12) == 0 {
 		scheme = strings.ToUpper(scheme)
 	}
